@@ -124,6 +124,7 @@ impl WorkerTree {
         if total_not_done == 0 {
             #[cfg(feature = "verif-hooks")]
             super::verif_hooks::verif_probe("process_nothing_to_do");
+            self.clean_files(resources);
             return Ok(());
         }
 
